@@ -134,6 +134,7 @@ def run(ctx):
     shared.no_log_handle_destroyed_in_cleanup(ctx, '3')   # also when a truncation fails: the logs not cleaned stay in front of the newer ones
     shared.torn_record_not_handed_over(ctx, '1')        # only complete records reach the stage that writes tables
     shared.unsynced_log_never_abandoned(ctx, '1')       # F82: no newer log file beside one that could not be synced
+    shared.log_handles_are_linear(ctx, '1')
     flush_is_not_skipped_wrongly(ctx, '2s')
     # every table the applier may write to is msynced by the column flush that precedes log truncation: besides the current index,
     # the value tables and the current ref-count table these are the OLD index / ref-count tables still queued for re-indexing
